@@ -172,6 +172,22 @@ def alias_of(cls, f):
     return a
 
 
+def _owner_nt_as_dict(cls):
+    """namedtuple_as_dict in effect for the fields of cls: Config.dialect > Config, else False"""
+    from mashumaro.core.const import Sentinel
+
+    cfg = getattr(cls, "Config", None)
+    for ns in (getattr(cfg, "dialect", None), cfg):
+        v = getattr(ns, "namedtuple_as_dict", Sentinel.MISSING) if ns is not None else Sentinel.MISSING
+        if v is not Sentinel.MISSING and v is not None:
+            return bool(v)
+    return False
+
+
+_NT_CTX = [False]  # named tuples as dicts at this position?
+_NT_OWNER = [False]  # the owner's option: what collection elements fall back to (pack_collection drops the field metadata)
+
+
 def shape(t, owner=None):
     """SHAPE(T): documents REF_ENC(T) produces (default options, by alias), after JSON round trip"""
     if t in (typing_extensions.Self, getattr(typing, "Self", None)) and owner is not None:
@@ -240,10 +256,20 @@ def shape(t, owner=None):
             if f.metadata.get("serialize") == "omit":
                 continue
             k = alias_of(base, f) or f.name
-            req[k] = shape(hints[f.name], base)
+            # named tuples inside this field: the field's engine (as_dict / as_list) over the owner's option
+            eng_ = f.metadata.get("serialize")
+            _NT_OWNER.append(_owner_nt_as_dict(base))
+            _NT_CTX.append(True if eng_ == "as_dict" else False if eng_ == "as_list" else _NT_OWNER[-1])
+            try:
+                req[k] = shape(hints[f.name], base)
+            finally:
+                _NT_CTX.pop()
+                _NT_OWNER.pop()
         return SObj(req, {}, None)
     if ref.is_namedtuple(base):
         hints = typing_extensions.get_type_hints(base)
+        if _NT_CTX[-1]:
+            return SObj({f: shape(hints.get(f, typing.Any), owner) for f in base._fields}, {}, None)
         return SArr([shape(hints.get(f, typing.Any), owner) for f in base._fields], None, [])
     if ref.is_typeddict(base):
         hints = typing_extensions.get_type_hints(base)
@@ -282,6 +308,16 @@ def shape(t, owner=None):
                 suffix.append(shape(a, owner))
         return SArr(prefix, rest, suffix)
     if isinstance(base, type):
+        _NT_CTX.append(_NT_OWNER[-1])  # elements of a collection: the field's engine no longer applies
+        try:
+            return _collection_shape(base, args, owner)
+        finally:
+            _NT_CTX.pop()
+    raise ref.Unsupported(f"no shape for {t!r}")
+
+
+def _collection_shape(base, args, owner):
+    if True:
         if base is collections.ChainMap:
             kt = args[0] if args else typing.Any
             vt = args[1] if len(args) > 1 else typing.Any
@@ -295,7 +331,7 @@ def shape(t, owner=None):
         if issubclass(base, collections.abc.Collection):
             el = shape(args[0], owner) if args else SAny()
             return SArr([], el, [], unique=issubclass(base, collections.abc.Set))
-    raise ref.Unsupported(f"no shape for {t!r}")
+    raise ref.Unsupported(f"no shape for {base!r}")
 
 
 def _subst(t, sub):
@@ -591,6 +627,42 @@ class NTS(NamedTuple):
 class TDS(TypedDict):
     p: int
     q: NotRequired[str]
+
+class _NtD(Dialect):
+    namedtuple_as_dict = True
+
+@dataclass
+class NtOptDictEngList(DataClassDictMixin):
+    p: NTS = field(default=NTS(1), metadata={"serialize": "as_list"})
+    q: NTS = NTS(2)
+    class Config(BaseConfig):
+        namedtuple_as_dict = True
+
+@dataclass
+class NtOptListEngDict(DataClassDictMixin):
+    p: NTS = field(default=NTS(1), metadata={"serialize": "as_dict"})
+    q: NTS = NTS(2)
+    class Config(BaseConfig):
+        namedtuple_as_dict = False
+
+@dataclass
+class NtEngineOnly(DataClassDictMixin):
+    p: NTS = field(default=NTS(1), metadata={"serialize": "as_dict"})
+    o: Optional[NTS] = field(default=None, metadata={"serialize": "as_dict"})
+    t: Tuple[NTS, int] = field(default=(NTS(4), 1), metadata={"serialize": "as_dict"})
+    r: NTS = NTS(3)
+
+@dataclass
+class NtItemEngine(DataClassDictMixin):
+    q: List[NTS] = field(default_factory=list, metadata={"serialize": "as_dict"})
+    m: Dict[str, NTS] = field(default_factory=dict, metadata={"serialize": "as_dict"})
+
+@dataclass
+class NtDialectDict(DataClassDictMixin):
+    p: NTS = field(default=NTS(1), metadata={"serialize": "as_list"})
+    q: Dict[str, NTS] = field(default_factory=dict)
+    class Config(BaseConfig):
+        dialect = _NtD
 '''
 
 SCHEMA_TYPES = [
@@ -603,6 +675,7 @@ SCHEMA_TYPES = [
     "Dict[str, int]", "dict", "Dict[int, str]", "Dict[E1, int]", "Mapping[str, Optional[int]]", "collections.OrderedDict[str, int]", "collections.ChainMap[str, int]",
     "collections.Counter[str]", "DefaultDict[str, List[int]]", "NTS", "TDS", "List[NTS]", "Dict[str, TDS]", "NTI", "Annotated[int, 'm']",
     "Leaf", "Aliased", "Outer", "List[Leaf]", "Optional[Leaf]", "Dict[str, Outer]", "Gen[int]", "TwoGen", "TwoSame", "Tuple[Leaf, Leaf]", "Union[Leaf, Aliased]",
+    "NtOptDictEngList", "NtOptListEngDict", "NtEngineOnly", "NtDialectDict", "NtItemEngine",
 ]
 
 KNOWN_TAGS = {
@@ -610,6 +683,7 @@ KNOWN_TAGS = {
     "Tuple[int, Unpack[Tuple[str, str]]]": "unpack-fixed", "Tuple[int, Unpack[Tuple[str, str]], float]": "unpack-fixed", "Tuple[Unpack[Tuple[int, str]]]": "unpack-fixed",
     "Dict[int, str]": "nonstr-keys", "Dict[E1, int]": "",
     "TwoGen": "shared-def", "TwoSame": "shared-def",
+    "NtItemEngine": "item-engine",
 }
 
 
